@@ -438,38 +438,58 @@ Proof.
   now rewrite (proj2 (Nat.leb_le x y)) by lia.
 Qed.
 
-(* M.apply: the state is collapsed onto the outcome of the SORTED qubits *)
-Theorem m_apply_sorted n tq shot psi :
+(* ---------- M.apply: the bits recorded in the gate's own qubit order *)
+Lemma reorder_select qs tq x b :
+  NoDup qs -> (forall q, In q qs <-> In q tq) -> length b = length qs ->
+  beqb (sel qs x) b = beqb (sel tq x) (reorder_bits qs tq b).
+Proof.
+  intros Hnd Hin Hb. apply beqb_iff. unfold reorder_bits. split; intros E.
+  - unfold sel. apply map_ext_in. intros q Hq. rewrite <- E. unfold sel.
+    symmetry. apply (nth_index_of_map (fun q0 => nth q0 x false)). now apply Hin.
+  - apply (nth_ext _ _ false false).
+    + unfold sel. now rewrite map_length.
+    + intros a Ha. unfold sel in Ha. rewrite map_length in Ha.
+      unfold sel at 1. rewrite (nth_map_lt _ _ _ 0) by exact Ha.
+      assert (Hq : In (nth a qs 0) tq) by (apply Hin; now apply nth_In).
+      apply (In_nth _ _ 0) in Hq. destruct Hq as [j [Hj Ej]].
+      assert (E2 : nth j (sel tq x) false = nth j (map (fun q => nth (index_of q qs) b false) tq) false) by now rewrite E.
+      unfold sel in E2. rewrite !(nth_map_lt _ _ _ 0) in E2 by exact Hj.
+      rewrite Ej in E2. rewrite E2. now rewrite index_of_nth.
+Qed.
+
+(* M.apply: the state is the projection onto the recorded outcome, the recorded bits being read
+   in the order of the gate's own qubits (any order); the squared norm is its Born probability *)
+Theorem m_apply_correct n tq shot psi :
   NoDup tq -> (forall q, In q tq -> q < n) ->
-  collapsed (m_apply n tq shot psi) = Some (project n (sort_nat tq) (recorded (m_apply n tq shot psi)) psi) /\
-  cnorm2 (m_apply n tq shot psi) = born n (sort_nat tq) (map zi_norm2 psi) (recorded (m_apply n tq shot psi)).
+  collapsed (m_apply n tq shot psi) = Some (project n tq (recorded (m_apply n tq shot psi)) psi) /\
+  cnorm2 (m_apply n tq shot psi) = born n tq (map zi_norm2 psi) (recorded (m_apply n tq shot psi)).
 Proof.
   intros Hnd Hlt. destruct (sort_nat_spec tq Hnd) as [S1 [S2 S3]].
-  unfold m_apply. cbn [collapsed recorded cnorm2]. split.
-  - apply collapse_state_sorted; [exact S1|]. intros q Hq. apply Hlt. now apply S2.
-  - apply collapse_norm2_born; [exact S1|]. intros q Hq. apply Hlt. now apply S2.
+  assert (Hsel : forall x, beqb (sel (sort_nat tq) x) (to_bin (length (sort_nat tq)) shot)
+                           = beqb (sel tq x) (recorded (m_apply n tq shot psi))).
+  { intros x. unfold m_apply. cbn [recorded].
+    apply reorder_select; [exact (asc_NoDup _ _ S1) | exact S2 | apply to_bin_length]. }
+  split.
+  - unfold m_apply at 1. cbn [collapsed].
+    rewrite collapse_state_sorted by (try exact S1; intros q Hq; apply Hlt; now apply S2).
+    f_equal. unfold project. apply map_ext. intros x. now rewrite Hsel.
+  - unfold m_apply at 1. cbn [cnorm2].
+    rewrite collapse_norm2_born by (try exact S1; intros q Hq; apply Hlt; now apply S2).
+    unfold born. f_equal. f_equal. apply filter_ext. exact Hsel.
 Qed.
 
-(* the recorded bits are in the order of the gate's qubits: true for ascending lists *)
-Theorem m_apply_recorded_order_asc n tq shot psi :
-  asc 0 tq = true -> (forall q, In q tq -> q < n) ->
+Lemma m_apply_recorded_order n tq shot psi :
+  NoDup tq -> (forall q, In q tq -> q < n) ->
   collapsed (m_apply n tq shot psi) = Some (project n tq (recorded (m_apply n tq shot psi)) psi).
-Proof.
-  intros Hasc Hlt.
-  destruct (m_apply_sorted n tq shot psi (asc_NoDup _ _ Hasc) Hlt) as [H _].
-  now rewrite (sort_nat_asc_id tq 0 Hasc) in H.
-Qed.
+Proof. intros H1 H2. exact (proj1 (m_apply_correct n tq shot psi H1 H2)). Qed.
 
-(* ... and false in general *)
-Lemma m_apply_recorded_order_counterexample :
-  let n := 3 in let tq := [2; 0] in let shot := 2 in
-  let psi := [zi0; zi0; zi0; zi0; zi1; zi0; zi0; zi0] in
-  NoDup tq /\ (forall q, In q tq -> q < n) /\ shot < 2 ^ length tq /\
-  collapsed (m_apply n tq shot psi) <> Some (project n tq (recorded (m_apply n tq shot psi)) psi).
+(* a gate conditioned on result.symbols[i] sees the value that qubit target_qubits[i] has on the
+   whole support of the collapsed state *)
+Theorem symbols_gate_order n tq shot psi i x :
+  i < length tq ->
+  beqb (sel tq x) (recorded (m_apply n tq shot psi)) = true ->
+  nth (nth i tq 0) x false = symbol_outcome (m_apply n tq shot psi) i.
 Proof.
-  cbn zeta. split; [|split; [|split]].
-  - constructor; [cbn; intros [H|[]]; discriminate | constructor; [intros [] | constructor]].
-  - intros q [<-|[<-|[]]]; lia.
-  - cbn. lia.
-  - vm_compute. discriminate.
+  intros Hi E. apply beqb_eq in E. unfold symbol_outcome. rewrite <- E.
+  unfold sel. now rewrite (nth_map_lt _ _ _ 0).
 Qed.
